@@ -29,8 +29,11 @@ ASSUMPTIONS = ['the pristine fingerprint is recomputed from the current tree on 
 TIMEOUT = {'quick': 900, 'thorough': 5400}
 
 
+ORDERS = ['sorted', 'reversed', 'shuffle-a', 'shuffle-b']
+
+
 def plan(tier, seed):
-    out = []
+    out = [{'mode': 'order', 'order': o, 'cost': 4000} for o in ORDERS]
     for t in sorted(ref.DFAS):
         a = len(ref.DFAS[t].alphabet)
         out.append({'type': t, 'cost': (a * a + 50) * a})
@@ -101,7 +104,116 @@ def snap(e, lib):
     return (tuple(lib.ids(e, True)), tuple(lib.ids(e, False)), tuple(sorted(e.attributes.items(), key=str)), str(e.value_))
 
 
+def all_attr_names():
+    names = set()
+    for t in ref.ALL:
+        for an, at, req in ref.attr_table(t):
+            names.add(an.split(':')[-1])
+    return sorted(names)
+
+
+def run_order(shard, tier, seed):
+    """behaviour matrices computed with the classes / types first used in a given global order; the shards are
+    compared with each other in aggregate(): any cell that depends on the order of first use is a violation"""
+    from .. import lib
+    import musicxml.xsd.xsdsimpletype as xs_
+    order = shard['order']
+    rnd = random.Random('%s:C13:%s' % (seed, order))
+
+    def arrange(xs):
+        xs = sorted(xs)
+        if order == 'reversed':
+            xs.reverse()
+        elif order.startswith('shuffle'):
+            rnd.shuffle(xs)
+        return xs
+    # (1) value acceptance: every simple type class x every enumeration literal of every type (+ a few numbers)
+    literals = sorted({l for t in ref.stypes for l in ref.enumeration(t)} | {'', '1', '0', '-1', '1.5', 'x'})
+    tnames = arrange(list(ref.stypes) + list(ref.xml_stypes))
+    values = {}
+    evals = 0
+    for tn in tnames:
+        tcls = getattr(xs_, 'XSDSimpleType' + lib._cap(tn.split(':')[-1]), None)
+        if tcls is None:
+            continue
+        bits = []
+        for lit in literals:
+            ok = False
+            for pv in lib.py_candidates(lit):
+                if lib.call(tcls, pv)[0] == 'ok':
+                    ok = True
+                    break
+            bits.append('1' if ok else '0')
+            evals += 1
+        values[tn] = ''.join(bits)
+    # (2) attribute declared-ness: every class x every attribute name of the schema
+    names = all_attr_names()
+    attrs = {}
+    for cn in arrange(list(lib.CLASSES)):
+        cls = lib.CLASSES[cn]
+        if lib.xsd_type_name(cls) not in ref.ALL:
+            continue
+        r = lib.call(lambda: lib.make(cls))
+        if r[0] == 'exc':
+            continue
+        e = r[1]
+        bits = []
+        for an in names:
+            rr = lib.call(setattr, e, an.replace('-', '_'), '@@probe@@')
+            evals += 1
+            if rr[0] == 'ok':
+                bits.append('1')
+                lib.call(setattr, e, an.replace('-', '_'), None)
+            elif isinstance(rr[1], AttributeError):
+                bits.append('0')          # not an attribute of this element
+            else:
+                bits.append('1')          # declared, value refused
+        attrs[cn] = ''.join(bits)
+    # (3) child acceptance of every container class: each symbol of the alphabet offered to a fresh element
+    kids = {}
+    for cn in arrange(list(lib.CONTAINER_CLASSES)):
+        cls = lib.CONTAINER_CLASSES[cn]
+        t = lib.xsd_type_name(cls)
+        bits = []
+        for sname in ref.DFAS[t].alphabet:
+            e = lib.make(cls, check=True, with_required=True)
+            bits.append('1' if lib.call(e.add_child, lib.make(lib.child_cls(sname)))[0] == 'ok' else '0')
+            evals += 1
+        kids[cn] = ''.join(bits)
+    return {'evaluations': evals, 'distinct_nontrivial': evals, 'violations': [],
+            'samples': [{'order': order, 'first_types': tnames[:4]}],
+            'counters': {'order_cells': evals}, 'matrix': {'order': order, 'literals': literals, 'names': names,
+                                                           'values': values, 'attrs': attrs, 'kids': kids}}
+
+
+def aggregate(results, tier, seed):
+    from ..engine import default_aggregate
+    agg = default_aggregate(results)
+    mats = [r['matrix'] for r in results if 'matrix' in r]
+    agg['counters']['orders_compared'] = len(mats)
+    if len(mats) >= 2:
+        base = mats[0]
+        for m in mats[1:]:
+            for part, cols in (('values', 'literals'), ('attrs', 'names'), ('kids', None)):
+                for key, bits in base[part].items():
+                    other = m[part].get(key)
+                    if other is None or other == bits:
+                        continue
+                    idx = next(i for i, (a, b) in enumerate(zip(bits, other)) if a != b)
+                    what = {'values': 'value-acceptance', 'attrs': 'attribute-declaredness', 'kids': 'child-acceptance'}[part]
+                    col = base[cols][idx] if cols else idx
+                    agg['violations'].append({
+                        'sig': {'kind': 'behaviour-depends-on-order-of-first-use', 'what': what, 'subject': key},
+                        'case': {'orders': [base['order'], m['order']], 'subject': key, 'probe': col},
+                        'detail': {'in_' + base['order']: bits[idx], 'in_' + m['order']: other[idx]}})
+    elif mats:
+        agg['inconclusive_reason'] = 'fewer than two order shards returned'
+    return agg
+
+
 def run_shard(shard, tier, seed):
+    if shard.get('mode') == 'order':
+        return run_order(shard, tier, seed)
     from .. import lib, hist
     from musicxml.xmlelement.containers import containers
     t = shard['type']
@@ -263,6 +375,11 @@ def _apply(e, live, op, lib):
 
 
 def replay_case(rp):
+    if 'orders' in rp['case']:
+        rs = [run_order({'order': o}, 'quick', rp.get('seed', 0)) for o in rp['case']['orders']]
+        agg = aggregate(rs, 'quick', 0)
+        mine = [x for x in agg['violations'] if x['sig'] == rp['sig']]
+        return {'violated': bool(mine)}
     res = run_shard({'type': rp['case']['type']}, rp.get('tier', 'quick'), rp.get('seed', 0))
     mine = [x for x in res['violations'] if x['sig'] == rp['sig']]
     return {'violated': bool(mine)}
